@@ -8,7 +8,7 @@ mkdir -p $out
 if [ -f $out/result.txt ]; then grep "check=" $out/result.txt | sed "s/^/earlier run: /" | cut -c1-160 >> $out/history.txt; fi
 git -C /repo worktree remove --force $wt 2>/dev/null
 git -C /repo worktree add --detach $wt HEAD -q || exit 2
-cp $sd/patch.diff $sd/demo.py $out/ ; cp $sd/meta.json $out/meta.orig.json
+if [ "$(readlink -f $sd)" != "$(readlink -f $out)" ]; then cp $sd/patch.diff $sd/demo.py $out/ ; cp $sd/meta.json $out/meta.orig.json; fi
 cd $wt
 PYTHONPATH=$wt /venv/bin/python $out/demo.py > $out/demo_unchanged.log 2>&1; d0=$?
 if git apply --check $out/patch.diff 2>/dev/null; then git apply $out/patch.diff
